@@ -7,6 +7,10 @@ import os
 from engine.core import Report
 from engine import ch
 
+REGION2_NOTE = ('db.disconnect() called in the child before the child ever connected: Pool.disconnect has no pid check, pool.con is still the '
+                'parent\'s connection object and is closed (and never recorded in forked_connections). The main families exclude exactly the '
+                'calls of such a disconnect step; fork_then_disconnect_first_* assert them strictly. A disconnect after the child has connected '
+                '(the parent connection then sits in forked_connections) is asserted everywhere.')
 REGION_NOTE = ('a fork while a session is open: the child inherits the session object with the parent\'s connection in it and pony '
                'checks the pid only in Pool.connect, so the inherited session goes on (and ends with rollback/commit/release) on the '
                'parent\'s connection. fork_mid_session_* assert everything outside that inherited session (later child sessions, '
@@ -27,6 +31,11 @@ def classify(spec, cex):
         twin = spec['fn'].replace('fork_inherited_session', 'fork_mid_session')
         if getattr(h, twin)(**cex):
             return 'fork-inside-open-session-child-continues-on-parent-connection'
+    if spec['fn'].startswith('fork_then_disconnect_first') and any("on the parent's" in w for w in why):
+        # everything wrong lies inside "disconnect() before the child ever connected" <=> passes with that region excluded
+        kind = spec['fn'].rsplit('_', 1)[1]
+        if h._scenario(kind, 'dbapi', cex['f'], cex['s1'], cex['s2'], 2, False, 0, cex['d']):
+            return 'child-disconnect-before-first-connect-closes-parent-connection'
     if "has no attribute 'pid'" in text:
         return 'sqlitepool-partial-connect-no-pid'
     return None
@@ -57,6 +66,8 @@ def run(tier, seed, only=None):
     rep.bounds = {
         'fork point': 'fork_at_getpid_*: before the f-th getpid() call, f in 0..8 (a scenario makes at most 5); fork_mid_session_* / '
                       'fork_inherited_session_*: before DB-API call f, every position of the scenario (<= NMAX=%d calls, checked)' % h_c36.NMAX,
+        'disconnect': 'db.disconnect() at none / after one of the 4 sessions (symbolic d in 0..4), in whichever process runs then; quick: with d != 0 the '
+                      'last symbolic session shape is fixed to immediate (thorough: free)',
         'sessions': '3 sessions with symbolic shapes from %r (fork_mid_session: 2 symbolic + 1 immediate), body of the 2nd may raise, '
                     'then one more immediate write session' % (list(h_c36.SHAPES),),
         'single_fault_*': 'one failing DB-API call at a symbolic position (driver OperationalError, reconnectable for pg/mysql/oracle) '
@@ -72,6 +83,7 @@ def run(tier, seed, only=None):
         'pony.orm.core.time stubbed; concrete bulk of each path runs outside CrossHair\'s opcode tracer (fakedb.untraced), the comparisons of the '
         'symbolic fork/fault numbers run under it',
         'known region: ' + REGION_NOTE,
+        'known region 2: ' + REGION2_NOTE,
         'single_fault_*: F4 (no second open connection) is not asserted when the fault hit a statement inside SQLitePool._connect (C19 finding)',
     ]
     rep.trusted = ['crosshair-tool 0.0.110', 'z3', 'engine/fakedb.py (driver model, ForkClock)', 'reference F1-F5 in checks/h_c36.py',
